@@ -238,7 +238,7 @@ def run(ctx):
         rep["plain_text"] = p.text
         rep["plain_result"] = p.raw if hasattr(p, "raw") else None
         ctx.violation(key, "program compiled with architecture/bindings/format computes %s while the plain program gives %s" % (
-            (c.raw if hasattr(c, "raw") else rm)[:200] if True else "", (p.raw if hasattr(p, "raw") else rp)[:60] if True else ""), rep)
+            str(c.raw if hasattr(c, "raw") else rm)[:200], str(p.raw if hasattr(p, "raw") else rp)[:60]), rep)
     distinct = len(set(c.text for c in cases if c.meta["mode"] == "metrics"))
     ctx.coverage.update({
         "programs": distinct, "executions": len(cases), "disagreements_checked": bad + static_bad, "static_violations": static_bad, "evaluations": len(cases), "distinct_nontrivial": distinct,
